@@ -448,6 +448,88 @@ def gen_terminput_history(rng):
             emit("tbind key %d %s" % (rng.choice([0, 1]), rng.choice(["t", "u0 t", "T", "c0"]))); ntb += 1
     emit("end")
 
+def gen_toplevel_history(rng):
+    """the toplevel instance (tickit_build for a terminal, tickit_get_rootwin / tickit_get_term with references of the
+    application's own, tickit_ref / tickit_unref, tickit_watch_later / timer / cancel, tickit_tick) together with windows:
+    the instance dropped while its root window still has children, with deferred calls pending, before or after the
+    application's own references.  Handlers make no restacking requests (see Model/LifeTop.lean) and the last reference to
+    the instance is not dropped while the application holds the root window (known finding rootwin_outlives_tickit)."""
+    L, C = rng.choice([(6, 12), (4, 8), (10, 20)])
+    emit("newtop %d %d" % (L, C))
+    nw = 1; root_refs = 1; inst_refs = 1; nwatch = 0; ntb = 0
+    parent = {0: None}
+    for _ in range(rng.randint(0, 4)):
+        p = rng.randrange(nw)
+        d = 0; x = p
+        while parent[x] is not None: x = parent[x]; d += 1
+        if d >= 3: p = 0
+        emit("win %d %d %d %d %d %d" % ((p,) + rect(rng) + (rng.choice([0, 0, 0, 1, 2, 8]),))); parent[nw] = p; nw += 1
+    def nonroot(): return rng.randrange(1, nw) if nw > 1 else 1
+    def hacts(n, term=True):
+        out = []
+        for _ in range(n):
+            r = rng.random(); w = nonroot()
+            if r < 0.35: out.append("u%d" % w)
+            elif r < 0.50: out.append("c%d" % w)
+            elif r < 0.60: out.append("r%d" % w)
+            elif r < 0.72: out.append("%s%d" % (rng.choice("hs"), rng.randrange(nw)))
+            elif r < 0.80: out.append("f")
+            elif term: out.append(rng.choice(["t", "t", "T"]))
+        return out
+    for _ in range(rng.randint(0, 2)):
+        emit(("bind %d %s %d %s" % (rng.randrange(nw), rng.choice(["key", "key", "mouse"]), 0, " ".join(hacts(rng.randint(0, 2), False)))).strip())
+    for _ in range(rng.randint(0, 2)):
+        emit(("tbind %s %d %s" % (rng.choice(["key", "mouse"]), rng.choice([0, 0, 1]), " ".join(hacts(rng.randint(0, 2))))).strip()); ntb += 1
+    pend = False
+    def toks():
+        nonlocal pend
+        out = []
+        n = rng.choice([0, 0, 1, 1, 2, 3])
+        if pend:
+            if n == 0 or rng.random() < 0.3: return out
+            out.append("a"); pend = False; n -= 1
+        for _ in range(n):
+            if rng.random() < 0.55: out.append(rng.choice(["a", "a", "A", "U"]))
+            else: out.append("%s%d,%d" % (rng.choice("PPDDR"), rng.randint(0, L - 1), rng.randint(0, C - 1)))
+        if rng.random() < 0.3: out.append("E"); pend = True
+        return out
+    def drop_inst():
+        nonlocal inst_refs, root_refs
+        if inst_refs == 1:
+            while root_refs > 0: emit("unref 0"); root_refs -= 1
+        if inst_refs > 0: emit("iunref"); inst_refs -= 1
+    early = rng.random() < 0.6          # the instance goes before (some of) the windows
+    for step in range(rng.randint(5, 16)):
+        r = rng.random()
+        if early and inst_refs > 0 and rng.random() < 0.12: drop_inst(); continue
+        if r < 0.10: emit("unref %d" % nonroot())
+        elif r < 0.14:
+            if rng.random() < 0.5 and root_refs > 0: emit("ref 0"); root_refs += 1
+            elif root_refs > 0: emit("unref 0"); root_refs -= 1
+        elif r < 0.18: emit("%s %d" % (rng.choice(["close", "ref"]), nonroot()))
+        elif r < 0.30: emit("%s %d" % (rng.choice(["raise", "raisefront", "lower", "lowerback"]), nonroot()))
+        elif r < 0.35: emit("%s %d" % (rng.choice(["hide", "show", "expose"]), rng.randrange(nw)))
+        elif r < 0.38: emit("flush")
+        elif r < 0.42 and nw < 8:
+            p = rng.randrange(nw); emit("win %d %d %d %d %d 0" % ((p,) + rect(rng))); parent[nw] = p; nw += 1
+        elif r < 0.54: emit(("ilater " + " ".join(hacts(rng.randint(0, 3)))).strip()); nwatch += 1
+        elif r < 0.62: emit(("itimer %d %s" % (rng.choice([0, 10, 50, 100]), " ".join(hacts(rng.randint(0, 2))))).strip()); nwatch += 1
+        elif r < 0.66 and nwatch: emit("icancel %d" % rng.randrange(nwatch + 1))
+        elif r < 0.80:
+            t = toks()
+            emit(("itick " + " ".join(t)).strip())
+        elif r < 0.85: emit("tick %d" % rng.choice([10, 50, 60, 100]))
+        elif r < 0.88: emit("iref"); inst_refs += 1 if inst_refs > 0 else 0
+        elif r < 0.91: emit(rng.choice(["tunref", "tref", "tunref"]))
+        elif r < 0.94:
+            was = pend; t = toks()
+            emit(("%s %s" % (rng.choice(["tpush", "tread", "twait"]), " ".join(t))).strip())
+            if inst_refs == 0: pend = was or pend       # the terminal may be gone: conservative
+        elif r < 0.96: emit("tcheck")
+        elif r < 0.98: emit("key")
+        else: drop_inst()
+    emit("end")
+
 info = {}
 if a.tier == "exhaustive":
     # all orders of <= 5 lifecycle operations on root(0) > 1 > 2, window 3 a sibling of 1, one pen
@@ -480,7 +562,7 @@ if a.tier == "exhaustive":
     info.update({"exhaustive_bound": "all sequences of <=3 (and a seed-selected quarter of the length-4) operations over a 13-letter lifecycle alphabet on root>1>2, 3 sibling of 1, one pen, one self-unref key handler; each followed by flush and end; tickit_mockterm_get_display_text with every buffer length (short of the known exact-fill overflow) for every span of five fixed lines of multi-byte, double-width and combining cells", "histories": nh})
 else:
     scale = 1 if a.tier == "quick" else 5
-    fams = {"tree": 700, "handlers": 700, "foreign": 400, "objects": 400, "pens": 400, "copyout": 400, "terminput": 500}
+    fams = {"tree": 700, "handlers": 700, "foreign": 400, "objects": 400, "pens": 400, "copyout": 400, "terminput": 500, "toplevel": 500}
     if a.families:
         fams = {k: v for k, v in fams.items() if k in a.families.split(",")}
     for fam, n in fams.items():
@@ -492,6 +574,7 @@ else:
             elif fam == "objects": gen_objects_history(rng)
             elif fam == "pens": gen_pens_history(rng)
             elif fam == "terminput": gen_terminput_history(rng)
+            elif fam == "toplevel": gen_toplevel_history(rng)
             else: gen_copyout_history(rng)
             fam_count[fam] = fam_count.get(fam, 0) + 1
     info = {"histories": sum(fam_count.values()), "families": fam_count}
